@@ -6,7 +6,7 @@ import re
 
 from vx.extract import C, ExtractError
 
-PROPS = ['C01', 'C19']
+PROPS = ['C01', 'C19', 'C10']
 HEADER = '#![feature(pattern)]\nuse vstd::prelude::*;\nverus! {\n'
 FOOTER = '\n} // verus!\nfn main() {}\n'
 
@@ -45,7 +45,7 @@ def here_state_writers(src):
 
 
 def build(repo, findings):
-    u = Unit('U27b', 'end of input inside a here-document: each extra round of the tokenizer loop makes progress', repo, ['C01', 'C19'], safety_props=['C01', 'C19'])
+    u = Unit('U27b', 'end of input inside a here-document: each extra round of the tokenizer loop makes progress', repo, ['C01', 'C19', 'C10'], safety_props=['C01', 'C19'])
     src = u.source('brush-parser/src/tokenizer.rs')
     for v in (r'\n\s*MissingHereTagForDocumentBody,', r'\n\s*MissingHereTag\(String\),', r'\n\s*UnterminatedHereDocuments\(String, String\),'):
         src.require_text(v, 'projected variant of TokenizerError')
@@ -93,6 +93,10 @@ def build(repo, findings):
     ], ensures=[
         C('C01 a-matched-end-tag-pops-the-token-and-moves-the-tag-count', 'res == Ok::<bool, TokenizerError>(true) ==> body_end_effect(old(self).cross_state, final(self).cross_state, *final(state))'),
     ])
+    r.before(r'^\s*state\.replace_with_here_doc\(', '''proof {
+    //@ remove_here_end_tag:line-start | C10,C01 the-delimiter-ends-the-document-only-at-the-start-of-a-line
+    assert(current_token_without_here_tag@.len() == 0 || current_token_without_here_tag@.last() == '\\n');
+}''', fn_name=fn)
     r.at_body_start(fn, 'broadcast use axiom_str_ends_with_char;')
     u.raw('impl Tokenizer {')
     u.add(r)
